@@ -14,8 +14,11 @@ import CpModel.Gen.TlsExt
     TlsExtensionTokenBinding                          (RFC 8472)
     TlsExtensionSignedCertificateTimestampServer      (RFC 6962 §3.3)
 
-  Every body parser sees `rest`, the buffer after the 4-byte extension header, NOT confined to the
-  declared length `len` (as in the code: `_parse_header` returns the parser over the whole buffer).
+  Every body parser reads from `rest`; the variant walk (`walkExtVariants`) hands it exactly the
+  declared extension data (`_check_header` returns a parser confined to the extension), so reading
+  beyond the extension is `NotEnoughData` of the class (which the variant, `parseExtVariant`, reports as
+  `InvalidValue` once the extension is there in full).  `TlsExtensionNextProtocolNegotiationServer` does not go
+  through `_check_header`; it reads its list from the same bytes (its list prefix IS the length).
 -/
 namespace Cp.Tls
 open Cp Cp.Codec
@@ -141,8 +144,8 @@ structure Sct where
 deriving Repr, DecidableEq
 
 /-- `SignedCertificateTimestamp._parse`: a 2-byte-prefixed blob, the fields parsed from the blob
-ONLY (what they leave unconsumed inside it is ignored); the constructor's validator rejects the
-"no timestamp" sentinel with a `TypeError` after every field has been read -/
+ONLY (what they leave unconsumed inside it is ignored); the "no timestamp" sentinel is rejected as an
+invalid value after every field has been read -/
 def parseSct (bs : Bytes) : Except PErr (Sct × Nat) := do
   let (sct, n) ← parseBytes .network 2 bs
   let (ver, a) ← parseIntEnum Gen.CtVersion.memberCodes 1 sct
@@ -157,7 +160,7 @@ def parseSct (bs : Bytes) : Except PErr (Sct × Nat) := do
   let r5 := r4.drop e
   let (sig, _) ← parseOpaque (vp Gen.vec_CtSignature) r5
   match ts with
-  | none => .error (.crash "TypeError")
+  | none => .error .invalidValue
   | some t => pure (⟨ver, log, t, ext, alg, sig⟩, n)
 
 def composeSctBody (s : Sct) : Except PErr Bytes := do
